@@ -21,3 +21,49 @@ func lemmaRangeTwoDescriptions(first, last int) (w1, w2 uint16, m1, m2 uint32, o
 	o1, n1 = decodeOfs(w1), decodeNbits(w1)
 	return
 }
+
+// C18: one step of the connection-tracking state builder, op = 2*flag + (0 set | 1 unset), with the ghost
+// words touched/last updated the way the property statement prescribes.
+func lemmaCTStatesStep(s *CTStates, touched, last uint32, op int) (uint32, uint32) {
+	switch op {
+	case 0:
+		s.SetNew()
+	case 1:
+		s.UnsetNew()
+	case 2:
+		s.SetEst()
+	case 3:
+		s.UnsetEst()
+	case 4:
+		s.SetRel()
+	case 5:
+		s.UnsetRel()
+	case 6:
+		s.SetRpl()
+	case 7:
+		s.UnsetRpl()
+	case 8:
+		s.SetInv()
+	case 9:
+		s.UnsetInv()
+	case 10:
+		s.SetTrk()
+	case 11:
+		s.UnsetTrk()
+	case 12:
+		s.SetSNAT()
+	case 13:
+		s.UnsetSNAT()
+	case 14:
+		s.SetDNAT()
+	case 15:
+		s.UnsetDNAT()
+	}
+	bit := uint32(1) << uint32(op/2)
+	if op%2 == 0 {
+		return touched | bit, last | bit
+	}
+	return touched | bit, last &^ bit
+}
+
+func lemmaCTStatesInit() *CTStates { return NewCTStates() }
